@@ -62,6 +62,7 @@ def jobs(tier, seed):
     for b in ('text', 'binary'):
         for second in (['canon', 'cl', 'text'], ['canon', 'chunked1', 'text']):
             js.append(dict(items=[['canon', 'overrun', b], second], mode='overrun-first'))
+            js.append(dict(items=[['canon', 'overrun_resp', b], second], mode='overrun-first'))
     if seed:
         k = seed % len(js)
         js = js[k:] + js[:k]
